@@ -183,9 +183,10 @@ Record wf_script (n R : nat) (sc : list pact) : Prop := {
   wf_rounds : forall x, In x (tasks_of sc) -> (t_round x < R)%nat;
   (* every round ends with exactly n tokens *)
   wf_tokens : forall k, (k < R)%nat -> cnt (is_tokk k) (tasks_of sc) = n;
-  (* a round's tokens are below its contigs in the queue order ... *)
-  wf_before : forall x y, In x (tasks_of sc) -> In y (tasks_of sc) -> t_round x = t_round y ->
-                t_tok x = false -> t_tok y = true -> task_cmp y x = Lt;
+  (* a round's tokens are below its contigs in the queue order, or the producer waits for an empty queue
+     before it pushes them ... *)
+  wf_before : forall A x B y C, sc = A ++ PPush x :: B ++ PPush y :: C -> t_round x = t_round y ->
+                t_tok x = false -> t_tok y = true -> task_cmp y x = Lt \/ In PWaitEmpty B;
   (* ... and whatever is pushed for a later round is below everything of an earlier round, unless the
      producer waits for an empty queue in between *)
   wf_after : forall A x B y C, sc = A ++ PPush x :: B ++ PPush y :: C -> (t_round x < t_round y)%nat ->
@@ -399,8 +400,27 @@ Section Protocol.
         assert (Hyq : In y (s_q s)) by (apply Hsub; exact Hy).
         assert (HyE : In y (tasks_of E)) by (destruct (H6 y Hyq) as [A [B [EA _]]]; rewrite EA; apply tasks_of_in).
         assert (task_cmp x y = Lt).
-        { apply (wf_before _ _ _ WF); [eapply split_in_sc_l; eassumption|eapply split_in_sc_l; eassumption| |exact ETy|exact ETok].
-          unfold rnum in Hrx. lia. }
+        { (* y (contig) was pushed before x (token of the same round), both after the last wait *)
+          destruct (H6 y Hyq) as [A [B [EA HB]]].
+          assert (HxB : In x (tasks_of B)).
+          { rewrite EA, tasks_of_app in HxE. cbn [tasks_of] in HxE. apply in_app_or in HxE.
+            destruct HxE as [HxA|[Exy|HxB]]; [exfalso|congruence|exact HxB].
+            pose proof (wf_sorted _ _ _ WF) as SS. rewrite Hsc, EA, !tasks_of_app in SS. cbn [tasks_of] in SS.
+            rewrite <- app_assoc in SS. cbn [app] in SS.
+            assert (RK : rk_le x y).
+            { eapply (ssorted_app_rel _ rk_le (tasks_of A) (y :: tasks_of B ++ tasks_of (s_prod s))); [exact SS|exact HxA|left; reflexivity]. }
+            unfold rnum in Hrx. destruct RK as [L|[_ [L|L]]]; [lia|congruence|congruence]. }
+          assert (SB : exists B1 B2, B = B1 ++ PPush x :: B2).
+          { clear - HxB. induction B as [|p B IH]; [contradiction|]. destruct p as [t| |]; cbn [tasks_of] in HxB.
+            - destruct HxB as [->|HxB]; [exists [], B; reflexivity|].
+              destruct (IH HxB) as [B1 [B2 ->]]. exists (PPush t :: B1), B2. reflexivity.
+            - destruct (IH HxB) as [B1 [B2 ->]]. exists (PWaitEmpty :: B1), B2. reflexivity.
+            - destruct (IH HxB) as [B1 [B2 ->]]. exists (PClose :: B1), B2. reflexivity. }
+          destruct SB as [B1 [B2 EB]].
+          destruct (wf_before _ _ _ WF A y B1 x (B2 ++ s_prod s)) as [H|H]; [| |exact ETy|exact ETok|exact H|].
+          - rewrite Hsc, EA, EB. rewrite <- !app_assoc. cbn [app]. rewrite <- app_assoc. reflexivity.
+          - unfold rnum in Hrx. lia.
+          - exfalso. apply HB. rewrite EB. apply in_or_app. left. exact H. }
         apply (is_maxb_spec _ _ EM y Hyq). apply task_cmp_lt_gt. exact H.
       + intros y z Hy Hz. apply Hsep; apply Hsub; assumption.
       + rewrite Eupd, <- Hlen, Ewk, !app_length. reflexivity.
